@@ -19,9 +19,9 @@ use temporal_rs::options::ArithmeticOverflow;
 use temporal_rs::partial::PartialDate;
 use temporal_rs::{Calendar, MonthCode, PlainDate, TemporalError, TinyAsciiStr};
 
-pub const MODELLED: [&str; 11] = [
+pub const MODELLED: [&str; 12] = [
     "iso8601", "gregory", "buddhist", "roc", "japanese", "coptic", "ethiopic", "ethioaa", "indian", "islamic-civil",
-    "islamic-tbla",
+    "islamic-tbla", "persian",
 ];
 
 fn iso(y: i128, m: i128, d: i128, cal: &str) -> Result<PlainDate, TemporalError> {
@@ -75,6 +75,11 @@ pub fn generate(rng: &mut Rng, thorough: bool) -> Vec<String> {
             days.push(e);
             days.push(e - 1);
         }
+        // Nowruz of the years around the Persian calendar's leap-year corrections (1502 AP = 2123 CE, ...)
+        for py in [1502i32, 1503, 1601, 1602, 2030, 2031, 2059, 2060, 2063, 2987, 2988, 1403, 1404, 1408, 1409] {
+            let e = day_of(py + 621, 3, 20);
+            for dd in -2..=2 { days.push(e + dd); }
+        }
         for _ in 0..n {
             days.push(match rng.below(4) { 0 => rng.range(-30_000, 40_000), 1 => rng.range(lo, hi), 2 => rng.range(-800_000, 200_000), _ => { let y = rng.range(-3000, 3000) as i32; day_of(y, 1, 1) + rng.range(-3, 3) + rng.pick(&[0i128, 59, 79, 80, 253, 254, 355, 365]) } });
         }
@@ -113,12 +118,18 @@ pub fn generate(rng: &mut Rng, thorough: bool) -> Vec<String> {
         for _ in 0..(n / 2) {
             let era = if rng.chance(1, 2) { "-" } else { *rng.pick(&ERAS) };
             let era = if cal == "iso8601" && era == "default" { "-" } else { era };
-            let ey = if era == "-" && rng.chance(4, 5) || rng.chance(1, 6) { "-".to_string() } else { rng.pick(&[1i128, 2, 5, 31, 64, 100, 1400, 1445, 2020, 2567, 5784, 0, -1]).to_string() };
-            let year = if era != "-" && rng.chance(4, 5) || rng.chance(1, 8) { "-".to_string() } else { rng.pick(&[1i128, 100, 1400, 1445, 1740, 1946, 2016, 2020, 2024, 2567, 5784, 7516, 0, -1, -500, 4660, 4357]).to_string() };
+            let ey = if era == "-" && rng.chance(4, 5) || rng.chance(1, 6) { "-".to_string() } else { rng.pick(&[1i128, 2, 5, 31, 64, 100, 1400, 1445, 2020, 2567, 5784, 0, -1, 300000, 300001, -300001, 2147483647, -2147483648]).to_string() };
+            let year = if era != "-" && rng.chance(4, 5) || rng.chance(1, 8) { "-".to_string() } else { rng.pick(&[1i128, 100, 1400, 1445, 1740, 1946, 2016, 2020, 2024, 2567, 5784, 7516, 0, -1, -500, 4660, 4357, 300000, 300001, -300000, -300001, 2147483647, -2147483648, 16777216]).to_string() };
             let month = if rng.chance(1, 2) { "-".to_string() } else { rng.range(0, 14).to_string() };
             let code = if rng.chance(1, 2) { "-" } else { *rng.pick(&["M01", "M02", "M05", "M05L", "M06", "M06L", "M12", "M13", "M00L", "M14"]) };
             let day = if rng.chance(1, 12) { "-".to_string() } else { rng.pick(&[1i128, 5, 28, 29, 30, 31, 32, 0]).to_string() };
             let ov = rng.pick(&["constrain", "reject"]);
+            // the astronomical calendars are kept away from years at the edge of the year guard: inside it the
+            // library's far-date assertions fire (C03's known findings), beyond it the crate refuses
+            let far = |s: &str| s == "300000" || s == "-300000";
+            if !modelled && (far(&year) || far(&ey)) {
+                continue;
+            }
             if modelled {
                 v.push(format!("cal_from {cal} {era} {ey} {year} {month} {code} {day} {ov}"));
             } else {
